@@ -40,17 +40,26 @@ LEVEL_NOTE = "float64, XLA CPU single thread; the oracle is the same code with r
 
 
 def generate(rng, tier, index):
-    spec = rp.rand_scene(rng, T=(5, 10), shape=(4, 7), pml=(2, 3), bloch_p=0.0, p_nonuniform=0.4, n_sources=(1, 2), max_plane=1)
+    spec = rp.rand_scene(rng, T=(5, 10), shape=(4, 8), pml=(2, 3), bloch_p=0.0, p_nonuniform=0.4, n_sources=(1, 2), max_plane=1)
     T = spec["steps"]
     spec["init_seed"] = int(rng.integers(0, 2**31)) if rng.uniform() < 0.5 else None
     spec["loop"] = {"replica": int(rng.integers(0, 2)), "cut": int(rng.integers(1, T)) if rng.uniform() < 0.7 else None}
     # one scene in five: a uniform plane source becomes the hard (field-overwriting) plane source of
     # fdtdx.objects.sources.source, which writes a complex carrier's real part into the fields
     hard = bool(rng.uniform() < 0.2)
+    to_mode = bool(rng.uniform() < 0.6)
     for s in spec["sources"]:
         if hard and s["kind"] == "uniform_plane":
             s["kind"] = "hard_plane"
             s.pop("profile", None)
+        elif to_mode and s["kind"] in ("uniform_plane", "gaussian_plane"):
+            # a mode source instead (its profile comes from the mode solver, complex-valued over lossy cross-sections);
+            # needs >= 6 x 6 transverse cells
+            ax = [a for a in range(3) if s["box"][a][1] - s["box"][a][0] == 1][0]
+            if all(s["box"][a][1] - s["box"][a][0] >= 6 for a in range(3) if a != ax):
+                s["kind"] = "mode"
+                s["mode_index"] = int(rng.integers(0, 2))
+                s.pop("radius", None)
     rp.add_dispersive_boxes(rng, spec, 0.3, per_axis=not [s for s in spec["sources"] if s["kind"] != "dipole"])
     return spec
 
@@ -99,6 +108,8 @@ def execute(spec):
     stats["probe_complex"] = 1
     stats["probe_hard_plane_source"] = int(any(s["kind"] == "hard_plane" for s in spec["sources"]))
     stats["probe_dispersive"] = int(bool(spec["materials"].get("disp_objects")))
+    stats["probe_mode_source"] = int(any(s["kind"] == "mode" for s in spec["sources"]))
+    stats["probe_mode_source_lossy_dispersive"] = int(any(s["kind"] == "mode" for s in spec["sources"]) and bool(spec["materials"].get("disp_objects")) and bool(spec["materials"].get("sigma_e_tier")))
 
     arrays = [s.arrays for s in scenes]
     steppers = [dr.Stepper(s) for s in scenes]
